@@ -17,7 +17,7 @@ import z3
 
 from vf.pyvc.contracts import Contract, ClassContract
 from vf.pyvc.interp import exc
-from vf.pyvc.values import SStrL1, StateGlobal, is_intlike, mk_int, zint, Ref
+from vf.pyvc.values import SStrL1, SUnionIB, StateGlobal, ANY, is_intlike, mk_int, zint, Ref
 from . import key_common      # noqa  (spec forms)
 from . import rawapi
 
@@ -41,6 +41,7 @@ def rz(st, pycls, msg=''):
 def _maybe(E, st, pycls, label):
     """fork: this call raises `pycls` / it does not (nothing is known about when)"""
     b = E.fresh(z3.BoolSort(), 'raises_' + label)
+    st.ghost['abstract_choices'] = 'weak DER / crypto collaborators'
     return E.split(st, b)
 
 
@@ -112,14 +113,13 @@ def install_der_weak(reg):
             if key is not None and key in hh.fields:
                 return outs + val(ok, hh.fields[key])            # the same element on every read
             if hh.fields['g_ints']:
-                alts = [(ok, E.fresh_int('elem'))]
+                v = E.fresh_int('elem')
             else:
-                o2 = ok.fork()
-                alts = [(ok, E.fresh_int('elem')), (o2, E.fresh_bytes('elem'))]
-            for s1, v in alts:
-                if key is not None:
-                    s1.heap[self.oid].fields[key] = v
-                outs += val(s1, v)
+                # an INTEGER member is handed out as a Python int, any other member as its encoding: an int|bytes union
+                v = SUnionIB(E.fresh(ANY, 'elem'), E.fresh(z3.BoolSort(), 'elem_is_int'), E.fresh_int('elem').t, E.fresh_bytes('elem').t)
+            if key is not None:
+                hh.fields[key] = v
+            outs += val(ok, v)
         return outs
     reg.models[ASEQ + '.__getitem__'] = seq_getitem
     reg.models[ASEQ + '.__len__'] = lambda E, st, args, kw: val(st, st.heap[args[0].oid].fields['g_n'])
@@ -180,6 +180,14 @@ def registry():
                      ensures={'oid': 'isinstance(result[0], str)', 'key': 'isinstance(result[1], bytes)',
                               'params': 'result[2] is None or isinstance(result[2], bytes)', 'triple': 'len(result) == 3'},
                      modifies=[]))
+    # C13: SubjectPublicKeyInfo / X.509 helpers of PublicKey/__init__.py: total, only ValueError
+    PK = 'Crypto.PublicKey.'
+    reg.add(Contract(PK + '_expand_subject_public_key_info', params={'encoded': 'bytes'}, raises={'ValueError': ('only_if', 'True')},
+                     ensures={'oid': 'isinstance(result[0], str)', 'key': 'isinstance(result[1], bytes)',
+                              'params': 'result[2] is None or isinstance(result[2], bytes)', 'triple': 'len(result) == 3'},
+                     modifies=[]))
+    reg.add(Contract(PK + '_extract_subject_public_key_info', params={'x509_certificate': 'bytes'}, raises={'ValueError': ('only_if', 'True')},
+                     modifies=[], ensures={'member': 'result is not None'}))
     return reg
 
 
@@ -188,5 +196,7 @@ def units(prop, tier):
     if prop == 'C13':
         return [pyvc_unit(prop, 'pbes.total.pbes1', registry, [PB + 'PBES1.decrypt']),
                 pyvc_unit(prop, 'pbes.total.pbes2', registry, [PB + 'PBES2.decrypt'], weight=3),
-                pyvc_unit(prop, 'pkcs8.total.unwrap', registry, [P8 + 'unwrap'], weight=2)]
+                pyvc_unit(prop, 'pkcs8.total.unwrap', registry, [P8 + 'unwrap'], weight=2),
+                pyvc_unit(prop, 'spki.total', registry, ['Crypto.PublicKey._expand_subject_public_key_info',
+                                                         'Crypto.PublicKey._extract_subject_public_key_info'])]
     return []
